@@ -1,0 +1,15 @@
+//go:build verif
+// +build verif
+
+package leveldb
+
+// VerifForgetDB drops what the verification hooks still hold for a DB that has been closed (the per-session
+// note of a table compaction that never reached its commit), so that a harness which opens thousands of DBs in
+// one process does not keep their sessions and storages alive.
+func VerifForgetDB(db *DB) {
+	if db == nil || db.s == nil {
+		return
+	}
+	verifMinSeqs.Delete(db.s)
+	verifPickStates.Delete(db.s.stor.Storage)
+}
